@@ -46,7 +46,7 @@ pub fn prop() -> Prop {
         stub: &["transport", "store", "glue", "random source", "byte-corrupting network/storage"],
         independent: &["hostile dictionary from the Python reference (ref/hostile/*.json)"],
         ref_sample: |_| 0,
-        required_probes: &["type_Identifier", "type_SigningShare", "type_VerifyingShare", "type_VerifyingKey", "type_SigningKey", "type_Nonce", "type_NonceCommitment", "type_CoefficientCommitment", "type_Signature", "type_SignatureShare", "type_Delta", "type_Sigma", "type_Randomizer", "composite_SecretShare", "composite_KeyPackage", "composite_PublicKeyPackage", "composite_PublicKeyPackage_pre3", "composite_SigningNonces", "composite_SigningCommitments", "composite_SigningPackage", "composite_dkg_round1_Package", "composite_dkg_round1_SecretPackage", "composite_dkg_round2_Package", "composite_dkg_round2_SecretPackage", "version_fault", "ciphersuite_fault_bin", "ciphersuite_fault_json", "cross_suite_payload", "hostile_elements", "hostile_scalars", "zero_identifier_rejected", "zero_signing_key_rejected", "identity_rejected"],
+        required_probes: &["structured_scalars_accepted", "type_Identifier", "type_SigningShare", "type_VerifyingShare", "type_VerifyingKey", "type_SigningKey", "type_Nonce", "type_NonceCommitment", "type_CoefficientCommitment", "type_Signature", "type_SignatureShare", "type_Delta", "type_Sigma", "type_Randomizer", "composite_SecretShare", "composite_KeyPackage", "composite_PublicKeyPackage", "composite_PublicKeyPackage_pre3", "composite_SigningNonces", "composite_SigningCommitments", "composite_SigningPackage", "composite_dkg_round1_Package", "composite_dkg_round1_SecretPackage", "composite_dkg_round2_Package", "composite_dkg_round2_SecretPackage", "version_fault", "ciphersuite_fault_bin", "ciphersuite_fault_json", "cross_suite_payload", "hostile_elements", "hostile_scalars", "zero_identifier_rejected", "zero_signing_key_rejected", "identity_rejected"],
         prepare: None,
     }
 }
@@ -165,6 +165,15 @@ impl<'a> Sweep<'a> {
             return Some(Violation::new("C12", "C12.invalid_encoding_accepted", format!("{} [{}]: {} was accepted ({what})", prim.name, self.rep.shape.split('|').next().unwrap_or(""), hexs(input))));
         }
         None
+    }
+    /// An encoding the library's own encoder produces for a value of the type: it decodes, and re-encodes to the same bytes.
+    fn must_accept(&mut self, prim: &Prim, input: &[u8], what: &str) -> Option<Violation> {
+        self.decodes += 1;
+        match (prim.dec)(input) {
+            None => Some(Violation::new("C12", "C12.round_trip_failed", format!("{} [{}]: the encoding {} of a valid value ({what}) is rejected by the decoder", prim.name, self.rep.shape.split('|').next().unwrap_or(""), hexs(input)))),
+            Some(Some(re)) if re != input => Some(Violation::new("C12", "C12.non_canonical_accepted", format!("{} [{}]: {} ({what}) decodes but re-encodes as {}", prim.name, self.rep.shape.split('|').next().unwrap_or(""), hexs(input), hexs(&re)))),
+            _ => None,
+        }
     }
     fn neighbourhood(&mut self, prim: &Prim, e: &[u8]) -> Option<Violation> {
         let l = e.len();
@@ -569,6 +578,69 @@ fn exec_c<C: Suite>(scen: &Scenario) -> Exec {
                 return Exec::Violation(v, rep);
             }
             sw.rep.extra_shapes.push(format!("{}|{}|{}", scen.suite, prim.name, hexs(&e[..e.len().min(12)])));
+        }
+    }
+    // ---- must-accept: structured in-range scalars that random worlds never contain (1, 2, q-1, q-2, powers of two up to the top
+    // bit of the order, all-ones patterns) in every scalar-valued type; zero where the public API itself makes a zero value
+    // (Randomizer::from_scalar, SigningShare::default) ---------------------------------------------------
+    {
+        let two = sc_from_u64::<C>(2);
+        let mut pw = one::<C>();
+        let mut structured: Vec<(frost::Scalar<C>, String)> = vec![(one::<C>(), "1".into()), (two, "2".into()), (neg::<C>(one::<C>()), "q-1".into()), (neg::<C>(two), "q-2".into()), (sc_from_u64::<C>(u64::MAX), "2^64-1".into())];
+        // 2^k and 2^k - 1 for every k below the bit length of the order (2^k mod q for larger k is just another scalar: harmless)
+        for k in 1..=(8 * sc_len::<C>() as u32) {
+            pw = pw * two;
+            if k % 8 == 0 || k % 8 == 7 || (248..=256).contains(&k) || (440..=448).contains(&k) {
+                structured.push((pw, format!("2^{k} mod q")));
+                structured.push((pw - one::<C>(), format!("2^{k}-1 mod q")));
+                structured.push((neg::<C>(pw), format!("-(2^{k}) mod q")));
+            }
+        }
+        for prim in prims.iter().filter(|p| matches!(p.class, Class::Scalar)) {
+            for (sc, what) in &structured {
+                if let Some(v) = sw.must_accept(prim, &sc_bytes::<C>(sc), what) {
+                    let decodes = sw.decodes;
+                    rep.evaluations += decodes;
+                    return Exec::Violation(v, rep);
+                }
+            }
+            sw.rep.probe("structured_scalars_accepted");
+        }
+        let zero_enc = Randomizer::<C>::from_scalar(zero::<C>()).serialize();
+        for name in ["Randomizer", "SigningShare"] {
+            let enc = if name == "Randomizer" { zero_enc.clone() } else { SigningShare::<C>::default().serialize() };
+            if let Some(prim) = prims.iter().find(|p| p.name == name) {
+                if let Some(v) = sw.must_accept(prim, &enc, "the zero value the public API constructs") {
+                    let decodes = sw.decodes;
+                    rep.evaluations += decodes;
+                    return Exec::Violation(v, rep);
+                }
+            }
+        }
+        // elements G*s for the first structured scalars (the generator itself, its double, its negation ...)
+        for prim in prims.iter().filter(|p| matches!(p.class, Class::Element)) {
+            for (sc, what) in structured.iter().take(5) {
+                let Some(eb) = el_bytes::<C>(&base::<C>(*sc)) else { continue };
+                if let Some(v) = sw.must_accept(prim, &eb, &format!("G * {what}")) {
+                    let decodes = sw.decodes;
+                    rep.evaluations += decodes;
+                    return Exec::Violation(v, rep);
+                }
+            }
+        }
+        // the signature's response part as well
+        if let Some(prim) = prims.iter().find(|p| p.name == "Signature") {
+            let valid = prim.valid[0].clone();
+            let rl = valid.len() - sc_len::<C>();
+            for (sc, what) in structured.iter().take(5) {
+                let mut b = valid[..rl].to_vec();
+                b.extend_from_slice(&sc_bytes::<C>(sc));
+                if let Some(v) = sw.must_accept(prim, &b, &format!("signature with response {what}")) {
+                    let decodes = sw.decodes;
+                    rep.evaluations += decodes;
+                    return Exec::Violation(v, rep);
+                }
+            }
         }
     }
     // ---- must-reject classes --------------------------------------------------------------------------
